@@ -889,18 +889,18 @@ theorem simulate_failed (sim : SimCore) (fs : Fs) (t : Bool) (m : Nat) (f : Stri
 
 
 theorem xcmpBody_binary_rejected (xc : XcmpCore) (fs : Fs) (c : XcmpCmd) (hb : c.action = .binary)
-    (h : ¬ XcmpSucceeds xc fs c) : xcmpBody xc c.opts fs = ⟨1, fs, true, .none⟩ := by
+    (hm : c.mem = false) (h : ¬ XcmpSucceeds xc fs c) : xcmpBody xc c.opts fs = ⟨1, fs, true, .none⟩ := by
   rcases c with ⟨a, m, f, out⟩
-  simp only at hb
-  subst hb
+  simp only at hb hm
+  subst hb hm
   simp only [xcmpBody, XcmpCmd.opts, XcmpSucceeds, driverRunCatch, driverRun, emitBin, ↓reduceIte] at h ⊢
   cases hr : fs.read f with
   | none => simp [resultOfRun]
   | some src =>
     simp only [hr] at h
     simp only []
-    cases hc : xc.compile .binary m src with
-    | error l => simp [resultOfRun]
+    cases hc : xc.compile .binary false src with
+    | error l => simp [resultOfRun, stdoutOfAction]
     | exn => simp [resultOfRun]
     | ok img =>
       by_cases hw : fs.canWrite out = true <;> simp [resultOfRun, hw, hc] at h ⊢
@@ -934,7 +934,7 @@ theorem xrunBody_failed (xc : XcmpCore) (sim : SimCore) (fs : Fs) (c : RunCmd)
   | some src =>
     simp only []
     cases hc : xc.compile .binary false src with
-    | error l => simp
+    | error l => simp [stdoutOfAction]
     | exn => simp
     | ok img =>
       by_cases hw : fs.canWrite "a.bin" = true
@@ -1189,7 +1189,7 @@ theorem xrunMain_eq_seq (xc : XcmpCore) (sim : SimCore) (fs : Fs) (items : List 
     have : ¬ XcmpSucceeds xc fs ⟨.binary, false, f, "a.bin"⟩ := by
       rintro ⟨src, img, h1, h2, h3⟩
       exact hcomp ⟨img, src, h1, h2, h3 rfl⟩
-    rw [xcmpBody_binary_rejected xc fs _ rfl this]
+    rw [xcmpBody_binary_rejected xc fs _ rfl rfl this]
     simp [Result.andThen]
 
 /-- With a `--max-cycles` value that is not a number both sides fail the same way as far as
@@ -1227,7 +1227,7 @@ theorem xrunMain_eq_seq_badcycles (xc : XcmpCore) (sim : SimCore) (fs : Fs) (ite
   by_cases hs : XcmpSucceeds xc fs ⟨.binary, false, f, "a.bin"⟩
   · have h0 := (xcmpBody_status xc fs _).mpr hs
     simp [Result.andThen, h0, hsim]
-  · rw [xcmpBody_binary_rejected xc fs _ rfl hs]
+  · rw [xcmpBody_binary_rejected xc fs _ rfl rfl hs]
     simp [Result.andThen]
 
 end Hex.Cli
